@@ -239,9 +239,9 @@ func TestVerif_C10(t *testing.T) {
 	runBScenarios(t, "C10", []bScenario{
 		mk(c10Opts{name: "client-close-sync", clientCloses: true}, 2, 3),
 		mk(c10Opts{name: "both-close-at-once", clientCloses: true, serverCloses: true}, 2, 3),
-		mk(c10Opts{name: "double-close-concurrent", clientCloses: true, doubleClose: true}, 2, 3),
-		mk(c10Opts{name: "server-closes-client-reads-eof", serverCloses: true, clientReadEOF: true}, 2, 3),
-		mk(c10Opts{name: "callback-server-client-close", serverCB: true, clientCloses: true}, 2, 3),
+		mk(c10Opts{name: "double-close-concurrent", clientCloses: true, doubleClose: true}, 1, 2),
+		mk(c10Opts{name: "server-closes-client-reads-eof", serverCloses: true, clientReadEOF: true}, 1, 2),
+		mk(c10Opts{name: "callback-server-client-close", serverCB: true, clientCloses: true}, 1, 2),
 		mk(c10Opts{name: "callback-server-local-close", serverCB: true, serverCloses: true, clientReadEOF: true}, 2, 3),
 		mk(c10Opts{name: "close-inside-ondata", serverCB: true, closeInCB: true, clientReadEOF: true}, 2, 3),
 	})
